@@ -26,28 +26,37 @@ class CaseTimeout(Exception):
 
 
 class Budget:
-	"""Per-call wall budget for real-code calls (SIGALRM; the harness runs them in the main thread)."""
+	"""Per-call wall budget for real-code calls (SIGALRM; the harness runs them in the main thread). Budgets nest: an inner
+	budget never outlives the enclosing one, and leaving it re-arms the enclosing one with what is left of its time."""
 
 	def __init__(self, seconds: float = CASE_BUDGET_S) -> None:
 		self.seconds = seconds
 		self._old: Any = None
+		self._outer = 0.0
+		self._t0 = 0.0
 
 	def __enter__(self) -> 'Budget':
 		import signal
+		import time
 		try:
 			def on_alarm(signum: int, frame: Any) -> None:
 				raise CaseTimeout(f'real-code call exceeded {self.seconds}s')
+			self._outer = signal.getitimer(signal.ITIMER_REAL)[0]
+			self._t0 = time.monotonic()
 			self._old = signal.signal(signal.SIGALRM, on_alarm)
-			signal.setitimer(signal.ITIMER_REAL, self.seconds)
+			signal.setitimer(signal.ITIMER_REAL, min(self.seconds, self._outer) if self._outer > 0 else self.seconds)
 		except (ValueError, AttributeError):  # not the main thread / no SIGALRM: run unbudgeted
 			self._old = None
 		return self
 
 	def __exit__(self, *a: Any) -> None:
 		import signal
+		import time
 		if self._old is not None:
 			signal.setitimer(signal.ITIMER_REAL, 0)
 			signal.signal(signal.SIGALRM, self._old)
+			if self._outer > 0:
+				signal.setitimer(signal.ITIMER_REAL, max(self._outer - (time.monotonic() - self._t0), 0.001))
 
 
 class Deadline:
@@ -225,6 +234,47 @@ def mutate_path(rng: random.Random, p: str, all_tags: list[str]) -> str:
 	return '.'.join(e for e in elems if e != '') or 'root'
 
 
+TESTERS = ['all', 'all', 'leaf', 'inner', 'idx', 'deep>=2', 'deep>=3']
+
+
+def make_tester(spec: str) -> Any:
+	"""The `tester(entry, path)` callbacks passed to `ASTFinder.find` (the driver's `parseTester` reads the same specs)."""
+	if spec == 'all':
+		return lambda e, p: True
+	if spec == 'leaf':
+		return lambda e, p: not e.has_child
+	if spec == 'inner':
+		return lambda e, p: e.has_child
+	if spec == 'idx':
+		return lambda e, p: p.endswith(']')
+	if spec.startswith('name='):
+		return lambda e, p: e.name == spec[5:]
+	if spec.startswith('deep>='):
+		return lambda e, p: p.count('.') >= int(spec[6:])
+	raise AssertionError(spec)
+
+
+def find_ops(rng: random.Random, paths: list[str], pf: dict[str, Any], tags: list[str], n: int) -> list[list[str]]:
+	"""`find` / `fexists` / `pathfyd` ops: base paths ending in an indexed element (the index must survive into the reported
+	keys), unique-tag bases, indexes in the middle, mutated paths, every depth kind, testers on entry and on path."""
+	ops: list[list[str]] = []
+	indexed_inner = [p for p in paths if p.endswith(']') and pf[p].has_child]
+	indexed = [p for p in paths if p.endswith(']')]
+	mid = [p for p in paths if '].' in p and not p.endswith(']')]
+	for k in range(n):
+		pool = [indexed_inner, indexed, mid, paths, paths][k % 5]
+		via = rng.choice(pool or paths)
+		if rng.random() < 0.12:
+			via = mutate_path(rng, via, tags)
+		tester = rng.choice(TESTERS) if rng.random() < 0.8 else f'name={rng.choice(tags)}'
+		ops.append(['find', via, str(rng.choice([-1, -1, -1, 0, 1, 2, 3, -2])), tester])
+	for _ in range(max(2, n // 3)):
+		ops.append(['fexists', rng.choice(paths) if rng.random() < 0.5 else mutate_path(rng, rng.choice(paths), tags)])
+	for start in ['', paths[0], rng.choice(paths), 'zz.' + paths[0], mutate_path(rng, rng.choice(paths), tags)][:max(2, n // 3)]:
+		ops.append(['pathfyd', hx(start), str(rng.choice([-1, 0, 1, 2, -3]))])
+	return ops
+
+
 _FINDER: list[Any] = []
 
 
@@ -307,6 +357,13 @@ def _real_op(finder: Any, nodes: Any, root: Any, pf: dict[str, Any], op: list[st
 			return str(nodes.id(op[1]))
 		if kind == 'exists':
 			return 'true' if nodes.exists(op[1]) else 'false'
+		if kind == 'find':
+			found = finder.find(root, op[1], make_tester(op[3]), int(op[2]))
+			return 'ok ' + '|'.join(f'{p}:{digest(e)}' for p, e in found.items())
+		if kind == 'fexists':
+			return 'true' if finder.exists(root, op[1]) else 'false'
+		if kind == 'pathfyd':
+			return '|'.join(f'{p}:{digest(e)}' for p, e in finder.full_pathfy(root, common.unhx(op[1]), int(op[2])).items())
 		if kind == 'values':
 			return 'ok ' + ','.join(hx(v) for v in nodes.values(op[1]))
 		if kind == 'groupby':
@@ -363,6 +420,7 @@ def case_random(rng: random.Random, max_depth: int, max_width: int) -> tuple[dic
 		ops.append(['id', p])
 		ops.append(['exists', p])
 	ops.append(['id', mutate_path(rng, rng.choice(paths), tags)])
+	ops += find_ops(rng, paths, pf, tags, 10)
 	kinds = ['children', 'siblings', 'parent', 'by', 'ancestor', 'by', 'by', 'expand', 'expandp', 'values', 'groupby', 'expandsafe', 'expandp']
 	for _ in range(44):
 		k = rng.choice(kinds)
@@ -464,6 +522,7 @@ def case_real(rng: random.Random, entry: Any, table: str, tags: list[str]) -> tu
 		ops.append(['values', p])
 	for _ in range(10):
 		ops.append(['pluck', mutate_path(rng, rng.choice(paths), tags[:40])])
+	ops += find_ops(rng, paths, pf, tags[:40], 8)
 	lines, real = [], []
 	for op in ops:
 		lines.append('\t'.join(op))
@@ -691,7 +750,7 @@ def stream_real(ctx: Ctx) -> Stream:
 _LAST_PATH: list[str] = []
 
 
-def _law_violation(finder: Any, root: Any, walk: list[tuple[str, Any]], pf: dict[str, Any]) -> str | None:
+def _law_violation(finder: Any, root: Any, walk: list[tuple[str, Any]], pf: dict[str, Any], rng: random.Random) -> str | None:
 	_LAST_PATH.clear()
 	from rogw.tranp.syntax.ast.cache import EntryCache
 	if len(pf) != len(walk):
@@ -709,6 +768,37 @@ def _law_violation(finder: Any, root: Any, walk: list[tuple[str, Any]], pf: dict
 	for i, (p, _) in enumerate(walk):
 		if cache.index_of(p) != i:
 			return f'id of {p} is {cache.index_of(p)}, document-order rank is {i}'
+	return _find_violation(finder, root, walk, rng)
+
+
+def _find_violation(finder: Any, root: Any, walk: list[tuple[str, Any]], rng: random.Random) -> str | None:
+	"""`ASTFinder.find(root, via, tester, depth)` = the part of the document-order walk at and below `via` (cut `depth` levels
+	below it) that the tester accepts, keyed by the FULL paths of the walk; looking every reported path up returns the reported
+	entry; `exists` is true on every path of the walk. Base paths ending in an indexed element come first."""
+	paths = [p for p, _ in walk]
+	inner = [p for p, e in walk if e.has_child]
+	indexed_inner = [p for p in inner if p.endswith(']')]
+	vias = [*rng.sample(indexed_inner, min(3, len(indexed_inner))), *rng.sample(inner, min(2, len(inner))), *rng.sample(paths, min(2, len(paths)))]
+	for via in vias:
+		n = via.count('.')
+		for depth, spec in ((-1, 'all'), (rng.choice([0, 1, 2]), rng.choice(TESTERS)), (rng.choice([-1, -2, 3]), rng.choice(TESTERS))):
+			tester = make_tester(spec)
+			want = [(p, e) for p, e in walk if (p == via or p.startswith(via + '.')) and (depth < 0 or p.count('.') - n <= depth) and tester(e, p)]
+			got = list(finder.find(root, via, tester, depth).items())
+			if [p for p, _ in got] != [p for p, _ in want]:
+				_LAST_PATH.append(via)
+				return f'find(via={via}, tester={spec}, depth={depth}) reports the paths {[p for p, _ in got][:8]}, the tree has {[p for p, _ in want][:8]} there'
+			for (p, e), (_, we) in zip(got, want):
+				if not same_entry(e, we):
+					_LAST_PATH.append(p)
+					return f'find(via={via}, tester={spec}, depth={depth}) binds {p} to another entry than the tree'
+				if not same_entry(finder.pluck(root, p), e):
+					_LAST_PATH.append(p)
+					return f'find(via={via}) reports {p}, but pluck({p}) returns another entry'
+	for p in rng.sample(paths, min(6, len(paths))):
+		if finder.exists(root, p) is not True:
+			_LAST_PATH.append(p)
+			return f'exists({p}) is not True for a path of full_pathfy'
 	return None
 
 
@@ -718,7 +808,7 @@ def search_laws(ctx: Ctx) -> SearchResult:
 	from rogw.tranp.syntax.ast.finder import ASTFinder
 
 	rng = ctx.sub_rng('laws')
-	res = SearchResult('bijection laws on real ASTFinder/EntryCache vs an independent tree walk')
+	res = SearchResult('bijection laws (full_pathfy / pluck / ids / find / exists) on real ASTFinder/EntryCache vs an independent tree walk')
 	# ONE finder for all cases of this search (not the streams' one, so that a finding is reproducible from this search alone)
 	finder = ASTFinder()
 	app = common.MemApp(ctx.tmpdir())
@@ -729,6 +819,7 @@ def search_laws(ctx: Ctx) -> SearchResult:
 		try:
 			with Budget(3 * CASE_BUDGET_S):
 				roots.append((f, trees.parse_real(app, f)))
+				check_shape(roots[-1][1], True)
 		except Exception:  # noqa: BLE001
 			continue
 	seen = set()
@@ -746,7 +837,7 @@ def search_laws(ctx: Ctx) -> SearchResult:
 		try:
 			with Budget(3 * CASE_BUDGET_S):
 				pf = finder.full_pathfy(root)
-				bad = _law_violation(finder, root, walk, pf)
+				bad = _law_violation(finder, root, walk, pf, rng)
 		except Exception as e:  # noqa: BLE001 - the laws say these calls succeed: an exception is a violation, not a harness failure
 			bad = f'real code raised {exc_enum(e)} while checking the addressing laws: {str(e)[:200]}'
 		if bad:
@@ -759,7 +850,7 @@ def search_laws(ctx: Ctx) -> SearchResult:
 					if any(p == _LAST_PATH[0] for p, _ in trees.walk_entries(er)):
 						rep['earlier_tree_with_the_same_path'] = {'tree': en, 'sexp': trees.entry_sexp(er)[:20000]}
 						break
-			res.findings.append(Finding(key='bijection', what=bad + f' (one ASTFinder instance, {len(earlier)} earlier trees)', replay=rep))
+			res.findings.append(Finding(key='find-disagrees-with-tree' if bad.startswith(('find(', 'exists(')) else 'bijection', what=bad + f' (one ASTFinder instance, {len(earlier)} earlier trees)', replay=rep))
 			break
 		earlier.append((name, root))
 		if len(res.samples) < 2:
@@ -1094,6 +1185,7 @@ def search_expand_real(ctx: Ctx) -> SearchResult:
 		for k, (_, e) in enumerate(walk):
 			if (k == 0 and e.name != start_tag) or (k > 0 and e.name not in below):
 				outside[e.name] = outside.get(e.name, 0) + 1
+		check_shape(walk[0][1], True)
 		has_child = lambda p: cache.by(p).has_child
 		vias = paths if len(paths) <= limit else [paths[0], *rng.sample(paths, limit)]
 		for via in vias:
@@ -1133,6 +1225,184 @@ def real_alphabet() -> tuple[str, set[str]]:
 	start, below = gen_tag_alphabet.alphabet()
 	return start, set(below)
 
+
+
+# ---------------------------------------------------------------------------------------------
+# the shape the grammar gives a tree (hypotheses of C10.expand_spec_full_grammar, re-computed on the real objects)
+
+
+_SHAPE: list[Any] = []
+SHAPE_MISSES: dict[str, int] = {}
+SHAPE_CHECKED = {'trees': 0, 'entries': 0}
+
+
+def grammar_shape() -> tuple[str, dict[str, set[str]], list[str]]:
+	"""(start tag, tree tag -> names its children can carry, resolvable tags) as the translator reads them from the source."""
+	if not _SHAPE:
+		from translate import gen_grammar_children
+		start, kids, resolvable, _ = gen_grammar_children.tables()
+		_SHAPE.append((start, {k: set(v) for k, v in kids.items()}, list(resolvable)))
+	return _SHAPE[0]
+
+
+def shape_misses(entry: Any, kids: dict[str, set[str]]) -> dict[str, int]:
+	"""Parent/child name pairs of a real Entry tree that the generated child table does not list (own walk, no recursion limit)."""
+	out: dict[str, int] = {}
+	stack = [entry]
+	while stack:
+		e = stack.pop()
+		if not e.has_child:
+			continue
+		allowed = kids.get(e.name)
+		for c in e.children:
+			if allowed is None or c.name not in allowed:
+				k = f'{e.name}>{c.name}'
+				out[k] = out.get(k, 0) + 1
+			stack.append(c)
+	return out
+
+
+def check_shape(root: Any, whole_module: bool) -> None:
+	"""Every real parse tree the check sees must conform to Generated/GrammarChildren.lean (hypothesis `hconf`)."""
+	try:
+		start, kids, _ = grammar_shape()
+	except Exception:  # noqa: BLE001 - reported once by run() as a failed translator
+		return
+	SHAPE_CHECKED['trees'] += 1
+	SHAPE_CHECKED['entries'] += trees.entry_size(root)
+	if whole_module and root.name != start:
+		SHAPE_MISSES[f'root:{root.name}'] = SHAPE_MISSES.get(f'root:{root.name}', 0) + 1
+	for k, n in shape_misses(root, kids).items():
+		SHAPE_MISSES[k] = SHAPE_MISSES.get(k, 0) + n
+
+
+def entry_to_dict(e: Any) -> dict[str, Any] | None:
+	if e.is_empty:
+		return None
+	if e.has_child:
+		return {'name': e.name, 'children': [entry_to_dict(c) for c in e.children]}
+	return {'name': e.name, 'value': e.value}
+
+
+def dict_name(t: dict[str, Any] | None) -> str:
+	return '__empty__' if t is None else t['name']
+
+
+def dict_conforms(t: dict[str, Any] | None, kids: dict[str, set[str]]) -> bool:
+	if t is None or 'children' not in t:
+		return True
+	allowed = kids.get(t['name'], set())
+	return all(dict_name(c) in allowed and dict_conforms(c, kids) for c in t['children'])
+
+
+def dict_uheight(t: dict[str, Any] | None, can_res: Any) -> int:
+	if t is None or 'children' not in t or can_res(t['name']) or not t['children']:
+		return 0
+	return 1 + max(dict_uheight(c, can_res) for c in t['children'])
+
+
+def table_chain(kids: dict[str, set[str]], can_res: Any) -> tuple[str, str, str] | None:
+	"""Three unresolvable tags nested directly inside one another above a further entry, if the table allows one."""
+	for a in sorted(kids):
+		if can_res(a):
+			continue
+		for b in sorted(kids[a]):
+			if can_res(b):
+				continue
+			for c in sorted(kids.get(b, ())):
+				if not can_res(c) and kids.get(c):
+					return (a, b, c)
+	return None
+
+
+def dict_walk(t: dict[str, Any] | None, path: str = '') -> list[tuple[str, dict[str, Any] | None]]:
+	path = path or dict_name(t)
+	out = [(path, t)]
+	if t is not None and 'children' in t:
+		names = [dict_name(c) for c in t['children']]
+		for i, c in enumerate(t['children']):
+			el = names[i] if names.count(names[i]) == 1 else f'{names[i]}[{i}]'
+			out.extend(dict_walk(c, f'{path}.{el}'))
+	return out
+
+
+def stream_shape(ctx: Ctx) -> Stream:
+	"""`conformsB`, `uheight`, `chainFreeB` of the model (the vocabulary of expand_spec_full_grammar) against the harness's own
+	computation over the translator's tables, on real subtrees, on subtrees with one renamed / regrafted entry, and under the
+	real table with some resolvable tags taken away."""
+	rng = ctx.sub_rng('grammar-shape')
+	cases: list[Any] = []
+	try:
+		start, kids, resolvable = grammar_shape()
+	except Exception as e:  # noqa: BLE001 - the failed translator is reported by run()
+		st = common.correspond('grammar-shape', [], 'tree', classify=lambda d: d['kind'])
+		st.note = f'skipped: the translator failed ({type(e).__name__})'
+		return st
+	app = common.MemApp(ctx.tmpdir())
+	names = sorted({n for v in kids.values() for n in v} | set(kids))
+	dl = Deadline(ctx, 'grammar-shape', 20, 120)
+	subs: list[Any] = []
+	for f in trees.real_source_files(ctx.thorough, rng, ctx.scale(3, 20)):
+		if dl.over():
+			break
+		try:
+			with Budget(3 * CASE_BUDGET_S):
+				root = trees.parse_real(app, f)
+		except Exception:  # noqa: BLE001
+			continue
+		check_shape(root, True)
+		found = subtrees_of(root, 250)
+		rng.shuffle(found)
+		subs.extend(found[:ctx.scale(8, 20)])
+
+	def build(e: Any, i: int) -> tuple[Any, list[str], list[str]]:
+		t = entry_to_dict(e)
+		kind = 'real'
+		walk = dict_walk(t)
+		inner = [(p, x) for p, x in walk if x is not None and 'children' in x]
+		if i % 3 == 1 and len(walk) > 1:
+			# one entry renamed to another name of the alphabet (mostly breaks conformance, sometimes not)
+			_, x = rng.choice(walk[1:])
+			if x is not None:
+				x['name'] = rng.choice(names)
+				kind = 'renamed'
+		elif i % 3 == 2 and len(inner) > 2:
+			# a subtree hung below another tree entry
+			(_, a), (_, b) = rng.sample(inner[1:], 2) if len(inner) > 2 else (inner[0], inner[-1])
+			if a is not b and all(x is not a for _, x in dict_walk(b)):
+				a['children'].insert(rng.randint(0, len(a['children'])), b)
+				kind = 'regrafted'
+		drop = set(rng.sample(resolvable, rng.choice([0, 0, 1, 2, 4, 12]))) if i % 2 else set()
+		res = [tg for tg in resolvable if tg not in drop]
+		can_res = lambda tg: tg in res
+		table = 'table\t' + ';'.join(f'{tg}=X:always' for tg in res) + '\tT:always'
+		walk = dict_walk(t)
+		ops: list[list[str]] = [['tree', trees.dict_sexp(t)], table.split('\t'), ['conforms'], ['chainfree']]
+		ents = dict(walk)
+		picks = rng.sample(walk, min(10, len(walk)))
+		ops += [['uheight', p] for p, _ in picks] + [['uheight', walk[0][0] + '.nowhere']]
+		lines, real = [], []
+		for op in ops:
+			lines.append('\t'.join(op))
+			if op[0] == 'tree':
+				real.append(f'ok {len(walk)}')
+			elif op[0] == 'table':
+				real.append('ok')
+			elif op[0] == 'conforms':
+				real.append(str(dict_conforms(t, kids)).lower())
+			elif op[0] == 'chainfree':
+				real.append(str(table_chain(kids, can_res) is None).lower())
+			else:
+				real.append(f'ok {dict_uheight(ents[op[1]], can_res)}' if op[1] in ents else 'Errors.NodeNotFound')
+		return ({'kind': f"{kind}:conforms={real[2]}:chainfree={real[3]}", 'entries': len(walk)}, lines, real)
+
+	for i, e in enumerate(subs):
+		if dl.over():
+			break
+		cases.append(safe_case(f'shape#{i}', lambda e=e, i=i: build(e, i)))
+	st = common.correspond('grammar-shape', cases, 'tree', classify=lambda d: d['kind'])
+	st.note = 'conformsB / uheight / chainFreeB of the model vs the harness computation over the tables of translate/gen_grammar_children.py: real statement-level subtrees, one entry renamed, one subtree regrafted; real resolvable tags with 0..12 taken away'
+	return st
 
 # ---------------------------------------------------------------------------------------------
 
@@ -1180,6 +1450,15 @@ STATEMENTS = {
 	'expand_spec_grammar': 'expand_spec with no string-level hypothesis for every tree rooted at the start symbol whose entries carry names of the generated alphabet (every real parse tree; checked against real trees on every run)',
 	'path_valid': 'EntryPath.valid of an encoded path = it has at least one element',
 	'path_escaped': 'EntryPath.escaped_origin is injective on paths free of backslashes: dropping the escapes gives the path back',
+	'find_spec': 'ASTFinder.find(root, via, tester, depth) from any enumerated base path = the pre-order enumeration of the subtree there cut depth levels below it (never for depth < 0), keyed by the paths the WHOLE tree gives those entries (the index of the last element of via included), filtered by the tester — every tester, every depth',
+	'find_sound': 'every (path, entry) find reports is a pair of full_pathfy(root), pluck(root, path) returns that very entry, and the tester accepted it',
+	'find_complete': 'with unbounded depth find leaves out nothing at or below via: the whole enumeration of the subtree, filtered',
+	'find_agrees_group_by': 'ASTFinder.find(root, via, always, depth) = EntryCache.group_by(via, depth) of the cache Nodes builds, for every non-zero depth (same keys, order, entries)',
+	'finder_exists': 'ASTFinder.exists is True on every path of full_pathfy(root)',
+	'expand_depth_bounded': 'expandOf 3 = expandFullOf (three levels are all levels) whenever no child of the entry starts three nested unresolvable levels (uheight <= 2) — any tree, any resolvable-tag set',
+	'conforming_depth': 'a tree that conforms to a child relation without three directly nested unresolvable tags above a further entry (ChainFree) has uheight <= 2 at every entry — any relation, any resolvable-tag set',
+	'grammar_chain_free': 'decided over the GENERATED child table of data/grammar.lark (lark compiled rules: inlining of _rules and single-child ?rules, filtered tokens, placeholders, aliases) and the GENERATED symbol_mapping() tags: no three tree tags without a node class nest directly above a further entry',
+	'expand_spec_full_grammar': 'expand_spec_full with neither the string-level nor the depth hypothesis: for every tree rooted at the start symbol that conforms to the generated child table, under any table resolving at least the shipped tags, Nodes.expand(via) (paths before resolution) = nearest resolvable descendants + terminals without a resolvable ancestor, at every entry path',
 	'resolve_list_order': 'resolving a list of paths (children / siblings / expand results) gives the same classes from every reachable instance cache as from the empty one',
 	'memo_keys_injective': 'the memo keys GENERATED from query.py determine the query: same key => same query (ancestor.{via}#{tag}: for via free of #)',
 	'memo_transparent': 'on one Nodes instance, after any history of queries (memoised or not, failing or not) every query returns what the memo-free evaluation on a fresh resolver returns, for every world (Memoize.get keeps the first factory per key; keys generated from the source)',
@@ -1196,18 +1475,24 @@ def run(ctx: Ctx) -> int:
 			from translate import gen_nodes_memo, gen_tag_alphabet
 			ctx.generated_tables.extend(gen_nodes_memo.generate())
 			ctx.generated_tables.extend(gen_tag_alphabet.generate())
+			from translate import gen_grammar_children
+			ctx.generated_tables.extend(gen_grammar_children.generate())
 		except Exception as e:  # noqa: BLE001 - an unrecognised shape of the memo calls breaks the tie (DESIGN §2.5)
 			translate_ok, translate_msg = False, f'{type(e).__name__}: {e}'
 			ctx.notes.append(f'translator failed: {translate_msg}')
 			print(f'[{PROP}] translator failed (the tie is broken): {translate_msg}')
 	proof = common.prove(ctx, PROP, leanchecker=ctx.thorough)
 	with ctx.timed('correspondence'):
-		streams = [stream_corpus(ctx), stream_path_algebra(ctx), stream_random(ctx), stream_real(ctx)]
+		streams = [stream_corpus(ctx), stream_path_algebra(ctx), stream_random(ctx), stream_real(ctx), stream_shape(ctx)]
 	with ctx.timed('search'):
 		searches = [search_laws(ctx), search_queries(ctx), search_expand(ctx), search_expand_real(ctx), search_resolve_order(ctx)]
 	if ALPHABET_MISSES and translate_ok:
 		# a real parse tree carries a name the generated alphabet does not list: the tie behind expand_spec_grammar is broken
 		translate_ok, translate_msg = False, f'entry names of real parse trees outside Generated/TagAlphabet.lean: {sorted(ALPHABET_MISSES)[:10]}'
+	if SHAPE_MISSES and translate_ok:
+		# a real parse tree has a parent/child pair the generated child table does not list: hypothesis hconf of expand_spec_full_grammar fails on real trees
+		translate_ok, translate_msg = False, f'parent>child pairs of real parse trees outside Generated/GrammarChildren.lean: {sorted(SHAPE_MISSES)[:10]}'
+	ctx.notes.append(f"grammar shape: {SHAPE_CHECKED['trees']} real parse trees / {SHAPE_CHECKED['entries']} entries checked against the generated child table, {sum(SHAPE_MISSES.values())} pairs outside it")
 	return common.finish(ctx, proof, streams, searches,
 		translate_ok=translate_ok, translate_msg=translate_msg,
 		statements=STATEMENTS,
@@ -1218,11 +1503,14 @@ def run(ctx: Ctx) -> int:
 				'(children_agree, children_entries, parent_nearest, parent_of_child, siblings_agree, siblings_root, ancestor_nearest — on the path lists before class resolution); '
 				'group_by for every depth, values (subtree_enumeration, groupBy_depth/unbounded/zero, values_document_order); '
 				'expand agrees with the tree under RelativefySafe (expand_spec, expand_spec_full), which is discharged for the shipped grammar (relativefy_exact, relativefy_safe_of_root_name, grammar_root_name_free over the generated alphabet, expand_spec_grammar), and provably not without it / beyond three levels '
-				'(expand_relativefy_counterexample, expand_depth3_counterexample: latent, synthetic tag sets only); '
+				'(expand_relativefy_counterexample, expand_depth3_counterexample: latent, synthetic tag sets only); the depth hypothesis is discharged for the shipped grammar and symbol mapping as well '
+				'(expand_depth_bounded, conforming_depth, grammar_chain_free decided over the generated child table and resolvable tags, expand_spec_full_grammar: expand = the uncapped tree computation on every conforming tree); '
+				'ASTFinder.find / exists report full paths of the whole tree below any base path, for every tester and depth, and agree with group_by (find_spec, find_sound, find_complete, find_agrees_group_by, finder_exists); '
 				'the node class is independent of earlier queries (resolve_order, resolve_order_queries, resolve_list_order) and the query memo of Nodes is transparent for every history (memo_keys_injective over the generated keys, memo_transparent; memo_key_counterexample for via containing #) — all on the model, for all trees / worlds',
 			'correspondence_only': 'the EntryPath algebra on malformed strings (stream path-algebra); the Memo/Memoize semantics (first factory kept, exception not cached) as modelled in Model/NodesMemo.lean; the real match_feature functions are pure functions of (tree, path) — validated by query permutations on real modules; '
+				'the reading of lark\'s tree builder in translate/gen_grammar_children.py (inlining, filtered tokens, placeholders) — tied by the conformance check on real parse trees and the stream grammar-shape; '
 				'match_feature implementations that call back into Nodes fill the real memo / instance cache with extra entries the model does not create (observationally equal by memo_transparent)',
-			'search_only': 'that no expandable entry of a real parse tree lies deeper than three levels below its node and that RelativefySafe holds there (every entry path of real parse trees: expand = uncapped tree computation)',
+			'search_only': 'that real parse trees conform to the generated child table (hypothesis hconf of expand_spec_full_grammar) is checked on every tree the check parses, not proved about lark; expand = uncapped tree computation is additionally searched on every entry path of real parse trees',
 		},
 		assumptions=[
 			'tags are non-empty and free of ".", "[" and "]" (true of every lark rule/terminal name and of __empty__)',
@@ -1230,7 +1518,7 @@ def run(ctx: Ctx) -> int:
 			'memo_transparent: no ancestor query with a # in via (true of every path over lark names)',
 			'expand_spec: RelativefySafe (relativefy(via) yields the true relative tags for the terminals below via); decidable and re-computed on the real objects by the expandsafe op',
 		],
-		trusted=['EntryOfDict/EntryOfLark expose the tree faithfully (C15 covers the lark side)', 'lark inlines every rule whose name starts with an underscore (such names are left out of the generated tag alphabet; every entry name of the real parse trees visited by the search is checked to be in the alphabet)'])
+		trusted=['EntryOfDict/EntryOfLark expose the tree faithfully (C15 covers the lark side)', 'lark builds trees from its compiled rules as lark/parse_tree_builder.py says (the generated child table over-approximates them; every real parse tree seen is checked to conform)', 'lark inlines every rule whose name starts with an underscore (such names are left out of the generated tag alphabet; every entry name of the real parse trees visited by the search is checked to be in the alphabet)'])
 
 
 def replay(ctx: Ctx, path: str) -> int:
